@@ -696,6 +696,18 @@ def run(ctx):
 def replay(ctx, obj):
     evorig.setup()
     r = obj.get('replay', obj)
+    if isinstance(r, dict) and r.get('scenario', '').startswith('cross-app rename'):
+        # the probe is deterministic: run it again and report what it finds
+        class _C(object):
+            failures = []
+            def count(self, *a, **k): pass
+            def case(self, *a, **k): pass
+            def fail(self, finding, what, rep): self.failures.append(what)
+        c = _C()
+        cross_app_rename_probe(c)
+        for w in c.failures:
+            print(w[:400])
+        return 1 if c.failures else 0
     final = sigs.real_simulate(dbrig.sig_from_models(dbrig.build_models(r['spec'])), 'vapp',
                                [sigs.real_mutation(m) for m in r['mutations']])
     fresh = dbrig.fresh_schema(final[1])
